@@ -364,11 +364,13 @@ def diff (path : Path) (base target : Option Entry) : List Change :=
   if !shallowEq target base then
     [{ path := path, old := base, new := target }]
   else
-    (nameUnion [contents base, contents target]).attach.flatMap fun ⟨n, _⟩ =>
-      diff (path ++ [n]) (lookup n (contents base)) (lookup n (contents target))
+    (nameUnion [contents base, contents target]).attach.flatMap fun n =>
+      diff (path ++ [n.1]) (lookup n.1 (contents base)) (lookup n.1 (contents target))
 termination_by osz base + osz target
 decreasing_by
-  rename_i hn
+  obtain ⟨n, hn⟩ := n
+  show _ < _
+  simp only []
   have hm := mem_nameUnion.mp hn
   have h1 := osz_lookup_contents_le n base
   have h2 := osz_lookup_contents_le n target
@@ -432,5 +434,60 @@ def apply (base : Option Entry) : List Change → Except ApplyErr (Option Entry)
 def getPath : Option Entry → Path → Option Entry
   | e, [] => e
   | e, n :: rest => getPath (lookup n (contents e)) rest
+
+end Mutagen.Model
+
+/-! ## Predicates used as hypotheses and in statements of theorems -/
+
+namespace Mutagen.Model
+
+mutual
+/-- Every content list in the tree has pairwise distinct names (true of every
+Go `map[string]*Entry`). -/
+def Entry.nodupKeys : Entry → Bool
+  | .mk _ cs => decide (keys cs).Nodup && Entry.nodupKeysL cs
+def Entry.nodupKeysL : Contents → Bool
+  | [] => true
+  | (_, c) :: r => c.nodupKeys && Entry.nodupKeysL r
+end
+
+def onodupKeys : Option Entry → Bool
+  | none => true
+  | some e => e.nodupKeys
+
+/-- A valid tree: a genuine map at every level that passes `EnsureValid(false)`. -/
+def Valid (e : Option Entry) : Prop := onodupKeys e = true ∧ oensureValid false e = true
+
+/-- A valid, fully synchronizable tree: passes `EnsureValid(true)`. -/
+def ValidSync (e : Option Entry) : Prop := onodupKeys e = true ∧ oensureValid true e = true
+
+mutual
+/-- No untracked, problematic, phantom or unknown-kind entry anywhere. -/
+def Entry.allSync : Entry → Bool
+  | .mk p cs => p.kind.synchronizable && Entry.allSyncL cs
+def Entry.allSyncL : Contents → Bool
+  | [] => true
+  | (_, c) :: r => c.allSync && Entry.allSyncL r
+end
+
+def oallSync : Option Entry → Bool
+  | none => true
+  | some e => e.allSync
+
+/-- Scalar fields of the entry at a path. -/
+def pget (e : Option Entry) (q : Path) : Option Props := (getPath e q).map Entry.props
+
+/-- The entry at `q` exists and it and all its ancestors are directories,
+files or symbolic links. -/
+def syncAlong : Option Entry → Path → Bool
+  | none, _ => false
+  | some e, [] => e.kind.synchronizable
+  | some e, n :: q => e.kind.synchronizable && syncAlong (lookup n e.children) q
+
+/-- `p` is a prefix of `q` (paths as lists of names). -/
+def isPrefix (p q : Path) : Bool := p.isPrefixOf q
+
+/-- Neither path is a prefix of the other. -/
+def incomparable (p q : Path) : Prop := ¬ p <+: q ∧ ¬ q <+: p
 
 end Mutagen.Model
